@@ -354,6 +354,45 @@ func (e *Env) c17FifoDir() {
 	if ob.Sites == 0 {
 		ob.Unknown(core.FuncName(cf), "mkfifo not reachable with the streaming flag set")
 	}
+	// the pipe is really made, at its own path: when the existence test of the FIFO path says "absent" the mkfifo command
+	// is issued and executed before CreateFifo returns, and the command names FifoPath
+	obM := r.Ob("R2", "CreateFifo:absent⇒mkfifo(FifoPath)", "when no pipe exists at FifoPath, CreateFifo executes mkfifo for exactly that path before it returns (a regular file would silently take the pipe's place)")
+	isExecRun := func(n *core.Node) bool {
+		return n.Kind != core.KAfter && n.IsCallTo("(*os/exec.Cmd).Output", "(*os/exec.Cmd).Run", "(*os/exec.Cmd).CombinedOutput", "syscall.Mkfifo", "golang.org/x/sys/unix.Mkfifo")
+	}
+	nSt := 0
+	for _, st := range g.Select(isStat) {
+		if !isCallSym(fsy.InCtx(st.Ctx, st.Call.Args[0]), fnFifoPath) {
+			continue
+		}
+		nSt++
+		absent := g.Run(core.Scenario{Start: st, Result: errResult(st, core.ErrNotExist, false), FieldLoad: e.assumeStream(true)})
+		isRet := func(m *core.Node) bool { return m.Kind == core.KRootRet }
+		switch {
+		case absent.ReachesAvoiding(isRet, isMkfifo) != nil || absent.ReachesAvoiding(isRet, isExecRun) != nil:
+			obM.Fail(g.Where(st), "with no pipe at the FIFO path CreateFifo can return without having run mkfifo (the existence test has the wrong polarity, or the command is only built): the producer's `> x.fifo` then creates a regular file")
+		default:
+			obM.OK(g.Where(st), "ENOENT ⇒ mkfifo issued and executed")
+		}
+	}
+	if nSt == 0 {
+		// no existence test: mkfifo must be unconditional
+		entry := g.Run(core.Scenario{Start: g.Entry, AtEntry: true, FieldLoad: e.assumeStream(true)})
+		if entry.ReachesAvoiding(func(m *core.Node) bool { return m.Kind == core.KRootRet }, isMkfifo) != nil {
+			obM.Fail(core.FuncName(cf), "CreateFifo can return without mkfifo")
+		} else {
+			obM.OK(core.FuncName(cf), "mkfifo on every path")
+		}
+	}
+	for _, m := range mks {
+		okPath := false
+		for _, a := range m.Call.Args {
+			if strings.Contains(fsy.InCtx(m.Ctx, a).String(), fnFifoPath+"(") {
+				okPath = true
+			}
+		}
+		obM.Check(okPath, g.Where(m), "mkfifo <FifoPath>", "the mkfifo command does not name FileIP.FifoPath: the pipe is made somewhere else than where producer and consumer look for it")
+	}
 }
 
 // recordBeforePublish (C17.R5, shared as C10.R6): an out-IP that Process.Run hands downstream while its task has
